@@ -114,7 +114,7 @@ func routeReturns() []returnStmt {
 // Routes is the F-routes family.
 func Routes(c explore.Chooser) *prog.Program {
 	s := &S{C: c}
-	base := prog.Module + "/srv"
+	base := prog.Base() + "/srv"
 	echoPath, innerPath := base+"/echo", base+"/inner"
 
 	verb := s.Pick("r0.verb", "GET", "POST", "PUT", "DELETE")
